@@ -1041,8 +1041,10 @@ func (c *c26Case) render() string {
 		acc := c.pre[a]
 		fmt.Fprintf(&b, "  pre %x nonce=%d balance=%v code=%d bytes storage=%v\n", a, acc.Nonce, acc.Balance, len(acc.Code), acc.Storage)
 	}
-	for i, ct := range c.world.Contracts {
-		fmt.Fprintf(&b, "  contract %d @%x: %s\n    code %x\n", i, ct.Addr, ct.Prog.Describe(), ct.Code)
+	if c.world != nil {
+		for i, ct := range c.world.Contracts {
+			fmt.Fprintf(&b, "  contract %d @%x: %s\n    code %x\n", i, ct.Addr, ct.Prog.Describe(), ct.Code)
+		}
 	}
 	for i, n := range c.txNotes {
 		fmt.Fprintf(&b, "  tx %d: %s\n    data %x\n", i, n, c.txs[i].Data())
@@ -1172,6 +1174,174 @@ func c26Property(st *vs.S, d c26Domain) func(rt *rapid.T) {
 			rt.Fatalf("geth's transition disagrees with the reference (kit/refevm):\n  %s\ncase:\n%s", strings.Join(diffs, "\n  "), c.render())
 		}
 	}
+}
+
+// ---------------------------------------------------------------------------
+// Computation-focused differential: every arithmetic / comparison / bitwise /
+// shift result and the content of memory after a script of memory operations is
+// written to storage, so value errors cannot hide behind an unobserved stack.
+// ---------------------------------------------------------------------------
+
+var c26ComputeAddr = common.HexToAddress("0xc0de00000000000000000000000000000000c26a")
+
+func c26DrawOperands(rt *rapid.T, n int) [][]byte {
+	out := make([][]byte, n)
+	for i := range out {
+		out[i] = ep.DrawWord(rt, "operand")
+	}
+	if n >= 2 {
+		neg := func(b []byte) []byte {
+			v := new(big.Int).Sub(new(big.Int).Lsh(big.NewInt(1), 256), new(big.Int).SetBytes(b))
+			return v.Mod(v, new(big.Int).Lsh(big.NewInt(1), 256)).Bytes()
+		}
+		switch ep.Uniform(rt, "operand-relation", 8) {
+		case 0:
+			out[1] = out[0]
+		case 1:
+			out[1] = neg(out[0])
+		case 2:
+			out[0] = neg(out[0])
+		case 3:
+			out[0], out[1] = neg(out[0]), neg(out[1])
+		}
+	}
+	return out
+}
+
+// c26ComputeProgram draws the program and the calldata it reads.
+func c26ComputeProgram(rt *rapid.T, fork refevm.Fork) (code, calldata []byte, ops []string) {
+	a := ep.NewAsm(true)
+	slot := uint64(0)
+	store := func() { a.PushU(slot).Op(ep.SSTORE); slot++ }
+	calldata = rapid.SliceOfN(rapid.Byte(), 0, 70).Draw(rt, "calldata")
+
+	binary := []byte{ep.ADD, ep.MUL, ep.SUB, ep.DIV, ep.SDIV, ep.MOD, ep.SMOD, ep.EXP, ep.SIGNEXTEND, ep.LT, ep.GT, ep.SLT, ep.SGT, ep.EQ,
+		ep.AND, ep.OR, ep.XOR, ep.BYTE, ep.SHL, ep.SHR, ep.SAR}
+	unary := []byte{ep.ISZERO, ep.NOT, ep.CALLDATALOAD}
+	if fork >= refevm.Osaka {
+		unary = append(unary, ep.CLZ)
+	}
+	ternary := []byte{ep.ADDMOD, ep.MULMOD}
+	n := 3 + ep.Uniform(rt, "n-arith", 8)
+	for i := 0; i < n; i++ {
+		var op byte
+		var vals [][]byte
+		switch c26Weighted(rt, "arity", []int{3, 12, 2}) {
+		case 0:
+			op, vals = unary[ep.Uniform(rt, "op1", len(unary))], c26DrawOperands(rt, 1)
+		case 1:
+			op, vals = binary[ep.Uniform(rt, "op2", len(binary))], c26DrawOperands(rt, 2)
+		default:
+			op, vals = ternary[ep.Uniform(rt, "op3", len(ternary))], c26DrawOperands(rt, 3)
+		}
+		if (op == ep.SHL || op == ep.SHR || op == ep.SAR || op == ep.BYTE || op == ep.SIGNEXTEND) && ep.Uniform(rt, "small-first", 2) == 0 {
+			vals[0] = []byte{byte(c26Pick(rt, "small-operand", 0, 1, 7, 8, 30, 31, 32, 33, 127, 128, 254, 255))}
+		}
+		for j := len(vals) - 1; j >= 0; j-- { // vals[0] ends up on top
+			a.Push(vals[j])
+		}
+		a.Op(op)
+		store()
+		ops = append(ops, ep.OpName(op))
+	}
+	// memory script over the first 256 bytes
+	m := ep.Uniform(rt, "n-mem", 8)
+	small := func(label string, max int) uint64 { return uint64(ep.Uniform(rt, label, max+1)) }
+	for i := 0; i < m; i++ {
+		switch ep.Uniform(rt, "mem-op", 7) {
+		case 0:
+			a.Push(ep.DrawWord(rt, "mstore-val")).PushU(small("off", 200)).Op(ep.MSTORE)
+			ops = append(ops, "MSTORE")
+		case 1:
+			a.Push(ep.DrawWord(rt, "mstore8-val")).PushU(small("off", 230)).Op(ep.MSTORE8)
+			ops = append(ops, "MSTORE8")
+		case 2: // MCOPY(dst, src, len) with overlapping ranges
+			a.PushU(small("len", 96)).PushU(small("src", 128)).PushU(small("dst", 128)).Op(ep.MCOPY)
+			ops = append(ops, "MCOPY")
+		case 3: // CALLDATACOPY(dst, off, len), reading past the end of the calldata
+			a.PushU(small("len", 80)).PushU(small("cd-off", 90)).PushU(small("dst", 150)).Op(ep.CALLDATACOPY)
+			ops = append(ops, "CALLDATACOPY")
+		case 4:
+			a.PushU(small("len", 80)).PushU(small("code-off", 300)).PushU(small("dst", 150)).Op(ep.CODECOPY)
+			ops = append(ops, "CODECOPY")
+		case 5:
+			a.PushU(small("off", 220)).Op(ep.MLOAD)
+			store()
+			ops = append(ops, "MLOAD")
+		case 6: // identity precompile round trip: RETURNDATACOPY of a sub-range
+			a.PushU(0).PushU(0).PushU(small("in-len", 64)).PushU(small("in-off", 128)).PushU(4).Op(ep.GAS, ep.STATICCALL, ep.POP)
+			a.Op(ep.RETURNDATASIZE)
+			store()
+			ops = append(ops, "IDENTITY")
+		}
+	}
+	a.PushU(256).PushU(0).Op(ep.KECCAK256)
+	store()
+	a.Op(ep.MSIZE)
+	store()
+	a.Op(ep.STOP)
+	code, err := a.Bytes()
+	if err != nil {
+		rt.Fatalf("VERIF-HARNESS-BUG: asm: %v", err)
+	}
+	return code, calldata, ops
+}
+
+func c26ComputeProperty(st *vs.S) func(rt *rapid.T) {
+	return func(rt *rapid.T) {
+		c := &c26Case{pre: types.GenesisAlloc{}, refPre: refevm.World{}}
+		c.fork = c26Pick(rt, "fork", refevm.Cancun, refevm.Prague, refevm.Osaka)
+		c.cfg = c26Config(c.fork)
+		code, calldata, ops := c26ComputeProgram(rt, c.fork)
+		c.put(c26ComputeAddr, 1, big.NewInt(0), code, nil)
+		c.put(c26Addrs[0], 0, new(big.Int).Mul(c26Ether, big.NewInt(1000)), nil, nil)
+		if c.fork >= refevm.Prague {
+			c.put(params.WithdrawalQueueAddress, 1, big.NewInt(0), params.WithdrawalQueueCode, nil)
+			c.put(params.ConsolidationQueueAddress, 1, big.NewInt(0), params.ConsolidationQueueCode, nil)
+		}
+		excess := uint64(0)
+		random := common.Hash{1}
+		c.env = stEnv{Coinbase: c26FreshAddr, Difficulty: big.NewInt(0), Random: new(big.Int).SetBytes(random[:]), GasLimit: 30_000_000,
+			Number: 1, Timestamp: 1_700_000_000, BaseFee: big.NewInt(7), ExcessBlobGas: &excess}
+		maxBlobs, fraction := c26BlobSchedule(c.fork)
+		c.refEnv = &refevm.Env{Fork: c.fork, ChainID: big.NewInt(1), Coinbase: refevm.Addr(c26FreshAddr), Number: 1, Time: 1_700_000_000,
+			GasLimit: 30_000_000, BaseFee: big.NewInt(7), Random: refevm.Hash(random), MaxBlobsPerBlock: maxBlobs, BlobUpdateFraction: fraction,
+			DepositContract: refevm.Addr(c26DepositAddr)}
+		to := c26ComputeAddr
+		tx, err := types.SignNewTx(c26Keys[0], types.LatestSignerForChainID(big.NewInt(1)),
+			&types.LegacyTx{Nonce: 0, GasPrice: big.NewInt(7), Gas: 2_000_000, To: &to, Value: big.NewInt(0), Data: calldata})
+		if err != nil {
+			rt.Fatalf("VERIF-HARNESS-BUG: sign: %v", err)
+		}
+		rto := refevm.Addr(to)
+		c.txs = []*types.Transaction{tx}
+		c.refTxs = []*refevm.Tx{{Type: refevm.TxLegacy, From: refevm.Addr(c26Addrs[0]), GasLimit: 2_000_000, GasPrice: big.NewInt(7), To: &rto,
+			Value: big.NewInt(0), Data: calldata}}
+		c.txNotes = []string{"compute program: " + strings.Join(ops, " ")}
+
+		sc := st.Case()
+		ref, got, alloc, aerr := c26Run(c)
+		sc.Class("fork:" + c.fork.String())
+		for _, o := range ops {
+			sc.Class("op:" + o)
+		}
+		if len(ref.Receipts) != 1 || !ref.Receipts[0].Status {
+			rt.Fatalf("VERIF-HARNESS-BUG: compute program did not succeed in the reference: %+v\n%s", ref.Receipts, ep.Disasm(code))
+		}
+		sc.NonTrivial(true, fmt.Sprintf("%v-%x", c.fork, crypto.Keccak256(code, calldata)[:12]))
+		sc.Sample(true, func() any {
+			return map[string]any{"fork": c.fork.String(), "ops": ops, "code": fmt.Sprintf("%x", code)}
+		})
+		if diffs := c26Compare(c, ref, got, alloc, aerr); len(diffs) > 0 {
+			rt.Fatalf("geth's transition disagrees with the reference (kit/refevm) on a computation:\n  %s\nprogram:\n%scalldata %x", strings.Join(diffs, "\n  "), ep.Disasm(code), calldata)
+		}
+	}
+}
+
+// TestVerifC26Compute: non-trivial = every case (each stores >= 5 computed words).
+func TestVerifC26Compute(t *testing.T) {
+	st := vs.New("C26", t)
+	vs.Check(t, 0.6, c26ComputeProperty(st))
 }
 
 func TestVerifC26Transition(t *testing.T) {
